@@ -57,7 +57,11 @@ func nameFromKind(kind an.BasicKind) string {
 
 // typeID returns an identifier for `ty`
 // usable in function names
-func typeID(ty an.Type) string {
+func typeID(ty an.Type) string { return typeIDRec(ty, make(map[*an.Named]bool)) }
+
+// typeIDRec implements typeID; [seen] cuts the recursion for named types
+// defined in terms of themselves, like type Tree []Tree
+func typeIDRec(ty an.Type, seen map[*an.Named]bool) string {
 	switch ty := ty.(type) {
 	case *an.Pointer:
 		panic("pointers not handled by the SQL generator")
@@ -70,11 +74,16 @@ func typeID(ty an.Type) string {
 		if ty.Len >= 0 {
 			as += fmt.Sprintf("%d_", ty.Len)
 		}
-		return as + typeID(ty.Elem)
+		return as + typeIDRec(ty.Elem, seen)
 	case *an.Map:
-		return "map_" + typeID(ty.Elem) // JSON map keys are always strings
+		return "map_" + typeIDRec(ty.Elem, seen) // JSON map keys are always strings
 	case *an.Named: // shortcut to underlying
-		return typeID(ty.Underlying)
+		if seen[ty] { // recursive definition : use the name
+			return idFromNamed(ty.Type().(*types.Named))
+		}
+		seen[ty] = true
+		defer delete(seen, ty)
+		return typeIDRec(ty.Underlying, seen)
 	case *an.Struct, *an.Enum, *an.Union: // these types are always named
 		return idFromNamed(ty.Type().(*types.Named))
 	default:
